@@ -49,8 +49,13 @@ func (p *nhPeer) Close() error                        { return nil }
 func (p *nhPeer) Channel() chan cla.ConvergenceStatus { return p.ch }
 func (p *nhPeer) Address() string                     { return "mock://" + p.name }
 func (p *nhPeer) IsPermanent() bool                   { return true }
-func (p *nhPeer) GetPeerEndpointID() bpv7.EndpointID  { return gen.MustEID("dtn://" + p.node() + "/") }
-func (p *nhPeer) String() string                      { return "mock-" + p.name }
+func (p *nhPeer) GetPeerEndpointID() bpv7.EndpointID {
+	if p.node() == "anon" {
+		return bpv7.DtnNone() // a neighbour that did not name itself (anonymous MTCP client, broadcast connector)
+	}
+	return gen.MustEID("dtn://" + p.node() + "/")
+}
+func (p *nhPeer) String() string { return "mock-" + p.name }
 
 // node is the name of the peer node: a convergence adapter named "r1#2" is a second adapter (another address) to
 // the node r1. Sends are recorded under the node name, which is what the oracles reason about.
